@@ -113,7 +113,7 @@ def run_shard(ctx):
         T = f"{P}S{k}"
         src = f"@dataclass(frozen=True)\nclass {T}(ASTNode):\n    x: {ann}\n"
         try:
-            exec(compile(src, f"<c13 {T}>", "exec"), ns)
+            exec(compile(src, f"<c13 {T}>", "exec", dont_inherit=True), ns)
         except Exception as e:  # noqa: BLE001
             tb = traceback.format_exc()
             if "/mashumaro/" in tb:
@@ -184,7 +184,7 @@ def run_shard(ctx):
         bad_default = mr.random() < 0.5
         src += f"    z: int = field(default={'\"bad\"' if bad_default else '3'}, init=False)\n"
         try:
-            exec(compile(src, f"<c13 {T}>", "exec"), ns)
+            exec(compile(src, f"<c13 {T}>", "exec", dont_inherit=True), ns)
         except Exception:  # noqa: BLE001
             if "/mashumaro/" in traceback.format_exc():
                 ctx.count("no_verdict_mashumaro_definition")
